@@ -19,6 +19,7 @@ import NeumannModel.RaftWal.Model
     ev elect | rv t c li lt | rvr t | pvr t 0|1 | lead | ae t l pi pt <t.c,…|-> | aer t | prop c
        | snap li lt <t.c,…|->   (install_snapshot: metadata index/term, entries 1..n)
                                 → recs=<rec,…|-> reply=<…> state=<nodestate>
+    evf <same events>           the handler while every RaftWal::append fails (stepFail)  → same format
     shrink <rec> …              apply the in-flight records' effect on the obligations    → ok
     ghost                       → acted=.. votes=.. acked=..
     save | load <k> | drop_slots  snapshots of (node, ghost), numbered from 0
@@ -113,6 +114,7 @@ def showReply : Reply → String
   | .proposed i => s!"proposed:{i}"
   | .notLeader => "notleader"
   | .snapshot ok => s!"snap:{if ok then 1 else 0}"
+  | .walFailed => "walfail"
 
 def parsePairs (s : String) : Option (List (Nat × Nat)) :=
   if s = "-" then some [] else
@@ -193,6 +195,12 @@ def walStep (st : DState) (line : String) : DState × String :=
   | "ev" :: rest => match parseEvent rest with
       | some e =>
         let o := step st.node e
+        ({ st with node := o.node, ghost := microAllG st.ghost o.micros },
+         s!"recs={showList ((recs o.micros).map showRec)} reply={showReply o.reply} state={showNode o.node}")
+      | none => bad
+  | "evf" :: rest => match parseEvent rest with
+      | some e =>
+        let o := stepFail st.node e
         ({ st with node := o.node, ghost := microAllG st.ghost o.micros },
          s!"recs={showList ((recs o.micros).map showRec)} reply={showReply o.reply} state={showNode o.node}")
       | none => bad
